@@ -30,6 +30,11 @@ pub struct Cont {
     c: Hash256,
 }
 
+/// a container without fields: its SSZ length is zero (illegal as an SSZ type, but the decoder has
+/// an explicit `ZeroLengthItem` error for it rather than a division by zero)
+#[derive(Debug, Clone, PartialEq, Default, Encode, Decode, TreeHash, Serialize, Deserialize)]
+pub struct Unit {}
+
 pub type VarElem = List<u8, typenum::U8>;
 /// an element that is itself a multi-leaf milhouse list: hashing it forks with rayon
 pub type NestElem = List<u64, typenum::U1024>;
@@ -180,6 +185,15 @@ fn de_two_ways<T: Kind + DeserializeOwned, N: Unsigned, U: UpdateMap<T> + Partia
     })
 }
 
+/// `U::default()`, or for a bare `VecMap` one created by `VecMap::with_capacity(n)`.
+fn presized<T: 'static, U: UpdateMap<T> + 'static>(n: usize) -> U {
+    let mut m = U::default();
+    if let Some(v) = (&mut m as &mut dyn std::any::Any).downcast_mut::<vec_map::VecMap<T>>() {
+        *v = vec_map::VecMap::with_capacity(n.min(1 << 20));
+    }
+    m
+}
+
 fn pd<T: Kind>() -> usize {
     milhouse::utils::opt_packing_depth::<T>().unwrap_or(0)
 }
@@ -281,7 +295,7 @@ fn iter_str<'a, T: Kind, I: ExactSizeIterator<Item = &'a T>>(mut it: I) -> Strin
     s
 }
 
-impl<'s, T: Kind, N: Unsigned + Send + Sync, U: UpdateMap<T> + PartialEq + Send + Sync> Interp<'s, T, N, U> {
+impl<'s, T: Kind, N: Unsigned + Send + Sync, U: UpdateMap<T> + PartialEq + Send + Sync + 'static> Interp<'s, T, N, U> {
     pub fn new() -> Self {
         Interp {
             colls: HashMap::new(),
@@ -325,6 +339,7 @@ impl<'s, T: Kind, N: Unsigned + Send + Sync, U: UpdateMap<T> + PartialEq + Send 
             "fromiter" => {
                 let h = n(1)?;
                 let vs = vals(3)?;
+                let src = vs.clone();
                 // the inherent constructor and the `ssz::TryFromIter` trait impl are two public
                 // entry points to the same construction: they must agree
                 let (a, b) = match *w.get(2)? {
@@ -338,6 +353,33 @@ impl<'s, T: Kind, N: Unsigned + Send + Sync, U: UpdateMap<T> + PartialEq + Send 
                     ),
                     _ => return None,
                 };
+                // the same elements through iterators whose `size_hint` is inexact (`filter`: only
+                // an upper bound) or absent (`from_fn`): the result must not depend on the hint
+                let list_kind = *w.get(2)? == "list";
+                let extra: Vec<Result<Handle<T, N, U>, Error>> = {
+                    let f1 = src.clone().into_iter().filter(|_| true);
+                    let mut it = src.clone().into_iter();
+                    let f2 = std::iter::from_fn(move || it.next());
+                    if list_kind {
+                        vec![List::try_from_iter(f1).map(Handle::L), List::try_from_iter(f2).map(Handle::L)]
+                    } else {
+                        vec![Vector::try_from_iter(f1).map(Handle::V), Vector::try_from_iter(f2).map(Handle::V)]
+                    }
+                };
+                for x in &extra {
+                    let agree = match (&a, x) {
+                        (Ok(p), Ok(q)) => {
+                            let vp: Vec<T> = both!(p, c => c.iter().cloned().collect());
+                            let vq: Vec<T> = both!(q, c => c.iter().cloned().collect());
+                            vp == vq
+                        }
+                        (Err(p), Err(q)) => fmt_err(p) == fmt_err(q),
+                        _ => false,
+                    };
+                    if !agree {
+                        return Some("err iter-paths-differ".to_string());
+                    }
+                }
                 let same = match (&a, &b) {
                     (Ok(x), Ok(y)) => {
                         let vx: Vec<T> = both!(x, c => c.iter().cloned().collect());
@@ -480,9 +522,15 @@ impl<'s, T: Kind, N: Unsigned + Send + Sync, U: UpdateMap<T> + PartialEq + Send 
                 let c = self.colls.get_mut(&n(1)?)?;
                 both!(c, x => res_unit(x.apply_updates()))
             }
-            "bulk" => {
-                let mut m = U::default();
-                for kv in &w[2..] {
+            "bulk" | "bulkcap" => {
+                // `bulkcap h n entries...`: the map is created with room for n entries where the
+                // map type offers that (`VecMap::with_capacity`); an empty pre-sized map is still empty
+                let (mut m, from) = if w[0] == "bulkcap" {
+                    (presized::<T, U>(n(2)?), 3)
+                } else {
+                    (U::default(), 2)
+                };
+                for kv in &w[from..] {
                     if let Some((k, v)) = kv.split_once('~') {
                         // filled through the public `get_mut_with` instead of `insert`
                         let v = val::<T>(v)?;
@@ -821,7 +869,8 @@ impl<'s, T: Kind, N: Unsigned + Send + Sync, U: UpdateMap<T> + PartialEq + Send 
                     Err(e) => e,
                 }
             }
-            "dump" => {
+            // (`dumpi`: the same observation; the comparer does not hold the model to it)
+            "dump" | "dumpi" => {
                 let mut st = Dump {
                     seen: HashMap::new(),
                     out: vec![],
@@ -931,7 +980,7 @@ impl<'s, T: Kind, N: Unsigned + Send + Sync, U: UpdateMap<T> + PartialEq + Send 
     }
 }
 
-impl<'s, T: Kind, N: Unsigned + Send + Sync, U: UpdateMap<T> + PartialEq + Send + Sync> Runner
+impl<'s, T: Kind, N: Unsigned + Send + Sync, U: UpdateMap<T> + PartialEq + Send + Sync + 'static> Runner
     for Interp<'s, T, N, U>
 {
     fn step(&mut self, line: &str) -> String {
@@ -1064,6 +1113,7 @@ fn make_runner(kind: &str, n: &str, m: &str) -> Option<Box<dyn Runner>> {
         "nestv" => small_sizes!(NestVElem, n, m),
         "var" => small_sizes!(VarElem, n, m),
         "nest" => sizes!(NestElem, n, m, ["4" => U4, "8" => U8, "9" => U9, "33" => U33, "1024" => U1024]),
+        "unit" => sizes!(Unit, n, m, ["1" => U1, "2" => U2, "4" => U4, "5" => U5, "8" => U8]),
         "nest2" => sizes!(Nest2Elem, n, m, ["3" => U3, "4" => U4, "5" => U5, "8" => U8, "9" => U9, "17" => U17]),
         _ => None,
     };
